@@ -18,10 +18,21 @@ pub trait StrExt {
 
 impl StrExt for str {
     fn has_linebreak(&self) -> bool {
-        self.contains('\n')
+        self.chars().any(typst_syntax::is_newline)
     }
 
     fn count_linebreaks(&self) -> usize {
-        self.chars().filter(|c| *c == '\n').count()
+        // Typst ends a line at any of its newline characters; CRLF counts once.
+        let mut count = 0;
+        let mut chars = self.chars().peekable();
+        while let Some(c) = chars.next() {
+            if typst_syntax::is_newline(c) {
+                if c == '\r' && chars.peek() == Some(&'\n') {
+                    chars.next();
+                }
+                count += 1;
+            }
+        }
+        count
     }
 }
